@@ -5,8 +5,11 @@
 import Phil
 import Phil.Heap
 import Phil.HeapFetch2
+import Phil.HeapFetchDiff
+import Phil.HeapFormat
 import Phil.IndexPaths
 import Phil.CmdLineAuto
+import Phil.IncludeParents
 open Phil
 
 def tokErrJ : TokErr → J
@@ -191,6 +194,33 @@ def handle (req : J) : J :=
          | _ => []
        resJ (fun os => J.arr (os.map Obj.toJ)) (expand { fs := fs, imports := imports, cwd := cwd } (resolvePath [] root))
      | _, _ => .str "bad-request")
+  -- parents and ids after include processing (Phil.IncludeParents): for every object, document order,
+  -- [full_path(), primary_id, number of scopes reached by climbing primary_parent_scope,
+  --  [for every name of the tree: what parent.lexical_get(name, stop_id=primary_id) finds]]
+  | .arr (.str "expandp" :: fsj :: root :: rest) =>
+    (match fsj.getArr, root.getStr with
+     | some l, some root =>
+       let pairs (l : List J) : List (Str × Str) := l.filterMap (fun e => match e with
+         | .arr [k, v] => (match k.getStr, v.getStr with
+            | some k, some v => some (k, v) | _, _ => none)
+         | _ => none)
+       let fs : FS := (pairs l).map (fun (k, v) => (resolvePath [] k, v))
+       let imports : List (Str × Str) := match rest with
+         | ij :: _ => (match ij.getArr with | some il => pairs il | none => [])
+         | [] => []
+       let cwd : Path := match rest with
+         | _ :: cj :: _ => (match cj.getStr with | some c => resolvePath [] c | none => [])
+         | _ => []
+       resJ (fun os =>
+          let nodes := nodesP os
+          let names := (nodes.map PObj.name).eraseDups
+          J.arr (nodes.map fun o =>
+            J.arr [J.text (fullPathP o), J.optNat o.meta.id, .num o.par.length,
+              .arr (names.map fun n => match lexicalGetP o n with
+                | none => .null
+                | some (f, _) => .arr [J.text f.name, J.optNat f.meta.id, .bool f.isDefn])]))
+         (expandP { fs := fs, imports := imports, cwd := cwd } (resolvePath [] root))
+     | _, _ => .str "bad-request")
   | .arr (.str "fetch" :: mt :: srcs :: diff :: ej :: fj :: rest) =>
     (match mt.getStr, srcs.getArr, diff.getBool, envsOfJ ej fj with
      | some mt, some srcs, some diff, some envs =>
@@ -295,6 +325,49 @@ def handle (req : J) : J :=
                 let marks := ((List.range hr.1.length).filter (fun i => s'.tmp.contains i)).map (fun (n : Nat) => J.num (Int.ofNat n))
                 let newMarks := (s'.tmp.filter (fun i => decide (hr.1.length ≤ i))).length
                 okJ (.arr [gnodesJ g, .num (Int.ofNat r'), .arr marks, .num (Int.ofNat newMarks), .num (Int.ofNat hr.1.length)]))))
+     | _, _, _ => .str "bad-request")
+  | .arr [.str "heap_fetch_diff", mt, srcs, ej, fj] =>
+    (match mt.getStr, srcs.getArr, envsOfJ ej fj with
+     | some mt, some srcs, some envs =>
+       (match (parseObjs mt).map (preResolve (fun _ => none) false), parseSources (srcs.filterMap J.getStr) with
+        | .error e, _ => .arr [.str "parse-failed", e.toJ]
+        | _, .error e => .arr [.str "parse-failed", e.toJ]
+        | .ok m, .ok ss =>
+          let hr := Heap.fetchDiffRootH envs m ss
+          (match hr.2 with
+           | .error e => e.toJ
+           | .ok (s', r) =>
+             (match canonFetchGraph hr.1.length s'.heap r with
+              | none => .arr [.str "unsupported", .str "heap_fetch_diff graph"]
+              | some (g, r') =>
+                let marks := ((List.range hr.1.length).filter (fun i => s'.tmp.contains i)).map (fun (n : Nat) => J.num (Int.ofNat n))
+                let newMarks := (s'.tmp.filter (fun i => decide (hr.1.length ≤ i))).length
+                okJ (.arr [gnodesJ g, .num (Int.ofNat r'), .arr marks, .num (Int.ofNat newMarks), .num (Int.ofNat hr.1.length)]))))
+     | _, _, _ => .str "bad-request")
+  | .arr [.str "heap_format", mt, srcs, ej, fj] =>
+    -- `master.format(master.fetch(sources).extract())` on the heap of a fresh parse of the master
+    (match mt.getStr, srcs.getArr, envsOfJ ej fj with
+     | some mt, some srcs, some envs =>
+       (match (parseObjs mt).map (preResolve (fun _ => none) false), parseSources (srcs.filterMap J.getStr) with
+        | .error e, _ => .arr [.str "parse-failed", e.toJ]
+        | _, .error e => .arr [.str "parse-failed", e.toJ]
+        | .ok m, .ok ss =>
+          (match fetchRoot envs false m ss with
+           | .error e => e.toJ
+           | .ok (ro, _) =>
+             (match extractObj envs 1000 ro with
+              | .error e => e.toJ
+              | .ok v =>
+                let hr := Heap.formatRootH envs m v
+                (match hr.2 with
+                 | .error e => e.toJ
+                 | .ok (h', r) =>
+                   (match canonFetchGraph hr.1.length h' r with
+                    | none => .arr [.str "unsupported", .str "heap_format graph"]
+                    | some (g, r') =>
+                      let tm := ((List.range g.length).filterMap (fun i => h'[if i < hr.1.length then i else i]?)).take hr.1.length
+                      okJ (.arr [gnodesJ g, .num (Int.ofNat r'), .num (Int.ofNat hr.1.length),
+                                 .arr (tm.map (fun (n : Heap.Node) => J.num n.meta.tmpl))]))))))
      | _, _, _ => .str "bad-request")
   | .arr [.str "isspace_table"] =>
     okJ (.arr (((List.range 0x110000).filter (fun (n : Nat) => (decide (n < 0xD800) || decide (n > 0xDFFF)) && isSpace (Char.ofNat n))).map (fun (n : Nat) => J.num (Int.ofNat n))))
